@@ -2,9 +2,6 @@
 package health
 
 import (
-	"archive/tar"
-	"bytes"
-	"compress/gzip"
 	"context"
 	"crypto/sha256"
 	"crypto/subtle"
@@ -1289,82 +1286,12 @@ func (s *Server) handleFileDownload(w http.ResponseWriter, r *http.Request, targ
 	}
 }
 
-// extractTarWithFallback tries to extract a tar archive, handling both plain tar and gzip.
+// extractTarWithFallback extracts a tar archive, handling both plain tar and gzip.
+// The archive comes from the HTTP client: extraction goes through the hardened extractor
+// of the filetransfer package, which refuses entries that would leave destDir (traversal
+// names, escaping or absolute symlink targets, paths that run through symbolic links).
 func extractTarWithFallback(r io.Reader, destDir string) error {
-	// Try reading first few bytes to detect gzip
-	buf := make([]byte, 2)
-	n, err := r.Read(buf)
-	if err != nil && err != io.EOF {
-		return err
-	}
-
-	// Create a reader that includes the bytes we already read
-	var reader io.Reader
-	if n > 0 {
-		reader = io.MultiReader(bytes.NewReader(buf[:n]), r)
-	} else {
-		reader = r
-	}
-
-	// Check for gzip magic number
-	if n >= 2 && buf[0] == 0x1f && buf[1] == 0x8b {
-		gzr, err := gzip.NewReader(reader)
-		if err != nil {
-			return fmt.Errorf("failed to create gzip reader: %w", err)
-		}
-		defer gzr.Close()
-		reader = gzr
-	}
-
-	// Create tar reader
-	tr := tar.NewReader(reader)
-
-	for {
-		header, err := tr.Next()
-		if err == io.EOF {
-			break
-		}
-		if err != nil {
-			return fmt.Errorf("failed to read tar header: %w", err)
-		}
-
-		targetPath := filepath.Join(destDir, header.Name)
-
-		// Security check
-		if !strings.HasPrefix(filepath.Clean(targetPath), filepath.Clean(destDir)) {
-			return fmt.Errorf("tar entry attempts path traversal: %s", header.Name)
-		}
-
-		switch header.Typeflag {
-		case tar.TypeDir:
-			if err := os.MkdirAll(targetPath, os.FileMode(header.Mode)); err != nil {
-				return err
-			}
-		case tar.TypeReg:
-			if err := os.MkdirAll(filepath.Dir(targetPath), 0755); err != nil {
-				return err
-			}
-			f, err := os.OpenFile(targetPath, os.O_CREATE|os.O_WRONLY|os.O_TRUNC, os.FileMode(header.Mode))
-			if err != nil {
-				return err
-			}
-			if _, err := io.Copy(f, tr); err != nil {
-				f.Close()
-				return err
-			}
-			f.Close()
-		case tar.TypeSymlink:
-			if err := os.MkdirAll(filepath.Dir(targetPath), 0755); err != nil {
-				return err
-			}
-			os.Remove(targetPath)
-			if err := os.Symlink(header.Linkname, targetPath); err != nil {
-				return err
-			}
-		}
-	}
-
-	return nil
+	return filetransfer.UntarDirectoryAuto(r, destDir)
 }
 
 // handleTriggerAdvertise handles POST /routes/advertise to trigger immediate route advertisement.
